@@ -43,8 +43,43 @@ def load_known():
 _xlock = threading.Lock()
 
 
+class MemPool:
+    """admission control: the sum of the memory estimates (Job.mem_est, GB) of the jobs running at once stays within the
+    machine's budget, so that heavy jobs do not push each other into OOM (which would only ever read as 'undecided')"""
+
+    def __init__(self, total):
+        self.total, self.used, self.cv = total, 0.0, threading.Condition()
+
+    def acquire(self, n):
+        n = min(n, self.total)
+        with self.cv:
+            while self.used + n > self.total:
+                self.cv.wait()
+            self.used += n
+        return n
+
+    def release(self, n):
+        with self.cv:
+            self.used -= n
+            self.cv.notify_all()
+
+
+def _mem_total():
+    try:
+        for l in open('/proc/meminfo'):
+            if l.startswith('MemAvailable'):
+                return max(8.0, int(l.split()[1]) / 1e6 * 0.85)
+    except Exception:
+        pass
+    return 32.0
+
+
+_pool = None
+
+
 def _run(job, known_ids):
     # extraction mutates shared AST annotations: serialise it; the solver pipeline runs in parallel
+    got = _pool.acquire(getattr(job, 'mem_est', 2.0)) if _pool else 0
     try:
         return engine.run_job_locked(job, known_ids, _xlock)
     except Exception as e:  # machinery error
@@ -53,6 +88,9 @@ def _run(job, known_ids):
         import traceback
         r.reason += '\n' + traceback.format_exc()[-1500:]
         return r
+    finally:
+        if _pool:
+            _pool.release(got)
 
 
 def replay_failure(prop, job, fail):
@@ -82,8 +120,13 @@ def main(prop, jobs, tier, level_note, not_under_contract=(), bounded_standin=No
     known_ids, fixed = load_known()
     nproc = int(os.environ.get('VERIF_JOBS', '0') or 0) or min(16, os.cpu_count() or 4)
     results = []
+    global _pool
+    _pool = MemPool(float(os.environ.get('VERIF_MEM_GB', '0') or 0) or _mem_total())
     with concurrent.futures.ThreadPoolExecutor(max_workers=nproc) as ex:
-        futs = [ex.submit(_run, j, known_ids) for j in jobs]
+        # heavy jobs first, so that they overlap with the light ones instead of queueing at the end
+        order = sorted(range(len(jobs)), key=lambda i: -getattr(jobs[i], 'mem_est', 2.0))
+        fmap = {i: ex.submit(_run, jobs[i], known_ids) for i in order}
+        futs = [fmap[i] for i in range(len(jobs))]
         for f in futs:
             results.append(f.result())
     violations, undecided, known_lines = [], [], []
